@@ -387,12 +387,12 @@ func (s *Store) Put(key []byte, value []byte) error {
 				return types.ErrKeyExists
 			}
 			cmpKey = true
-		}
-		if bytes.Equal(value, storedVal) {
-			// Trying to put the same value in an existing key, so ok to
-			// directly return. This is not needed for the blockstore, since it
-			// sets s.immutable = true.
-			return nil
+			if bytes.Equal(value, storedVal) {
+				// Trying to put the same value in an existing key, so ok to
+				// directly return. This is not needed for the blockstore, since it
+				// sets s.immutable = true.
+				return nil
+			}
 		}
 	}
 
